@@ -112,6 +112,7 @@ def run(R):
     r2(R)
     r3(R)
     r4(R)
+    r5(R)
 
 
 def r4(R):
@@ -341,3 +342,45 @@ def r1(R):
         exec_like = [prog.bodies[k].name for k in callees if prog.bodies[k].file.endswith("execute_query.rs")]
         R.ob("C17-R1", "http-uses-query-entry", "handle_http_sparql_query executes requests only through execute_sparql_query (calls %s)" % exec_like,
              exec_like == ["execute_sparql_query"], where=h.where())
+
+
+def r5(R):
+    """allocation sizes do not come from the request text"""
+    from lib.taint import Taint
+    prog = R.prog
+    R.rule("C17-R5", "the request does not size allocations: a number parsed from the request (LIMIT, OFFSET of a query or sub-select) never reaches "
+                     "the size argument of an allocating call (`with_capacity`, `reserve*`, `resize*`, `vec![x; n]`, `repeat`, `split_off`) unless it was "
+                     "clamped by `min` against something the engine holds. `LIMIT 18446744073709551615` is a valid request; a buffer of that "
+                     "capacity panics with `capacity overflow` (or aborts the process) instead of returning rows or an error")
+    SINKS = {"with_capacity": 0, "with_capacity_and_hasher": 0, "with_capacity_in": 0, "reserve": 1, "reserve_exact": 1, "try_reserve": None, "resize": 1,
+             "resize_with": 1, "from_elem": 1, "repeat": 1, "extend_from_within": None}
+    nsrc = nsink = 0
+    roots = [b for b in prog.bodies.values() if b.crate == "kolibrie" and not b.is_closure and "::tests::" not in b.key]
+    for b in sorted(roots, key=lambda x: x.key):
+        fam = prog.family(b.key)
+        srcs = []
+        for x in fam:
+            for bb, i, pl, rv, st in x.assigns():
+                for pp, kind in F.rv_places(rv):
+                    for e in pp["p"]:
+                        if e["k"] == "field" and e.get("n") in ("limit", "offset") and (e.get("adt") or "").startswith("shared::query::"):
+                            srcs.append((x, pl["l"]))
+        if not srcs:
+            continue
+        nsrc += len(srcs)
+        T = Taint(prog, b, summaries=lambda c: "clean" if c.name() in ("min", "clamp") else None)
+        for x, l in srcs:
+            T.seed(x, l, "request-number")
+        T.run()
+        for x in fam:
+            for c in x.calls():
+                idx = SINKS.get(c.name(), -1)
+                if idx == -1 or idx is None or idx >= len(c.args):
+                    continue
+                nsink += 1
+                bad = "request-number" in T.op_taint(x, c.args[idx])
+                if bad:
+                    R.saw(x)
+                    R.ob("C17-R5", "alloc:%s:%s" % (x.short, c.name()), "the size handed to `%s` in %s does not come from the request" % (c.name(), x.short), False, where=x.where(c.ln),
+                         detail="a LIMIT / OFFSET value of the request flows into the capacity without a `min` against the data at hand")
+    R.ob("C17-R5", "scanned", "bodies that read a LIMIT / OFFSET of the request: %d reads; allocation-size sites next to them: %d" % (nsrc, nsink), nsrc >= 1, where=None)
